@@ -1,5 +1,195 @@
 /-
-C02 — property theorems (stub: no theorem stated yet, so no obligation is counted).
+C02 — virtual offsets address the flat stream: property theorems.
+
+Model: `Hts.Model.Bgzf.Reader` (bgzf/reader.go Read/ReadByte/Seek/nextBlock, cache.go block), a file being the list
+of its members (payload, compressed size).  Specification: `Hts.Spec.Flat` (a flat byte string, a logical position).
+All statements are for every well-formed file (any number of members, payloads of 0..65535 bytes, with or without
+trailing empty members/EOF marker), every history (any length) of Read(n)/ReadByte/Seek/Blocked toggles whose seeks
+go to a block start plus an offset up to the block's length.
 -/
+import Hts.Lemmas.ReaderProps
+import Hts.Lemmas.ReaderLTS
 namespace Hts.Props.C02
+open Hts.Model.Bgzf Hts.Spec.Flat
+
+/-- **Refinement.** For every well-formed file and every valid history, what the reader model returns per
+operation — the bytes, the error, and `LastChunk()` after the call — is what the flat specification
+returns: the bytes of the flat copy at the logical position implied by the history, `io.EOF` exactly when
+the data (in Blocked mode: the block) ended, `Begin`/`End` the offsets before/after the bytes. -/
+theorem read_refines_flat (F : File) (hwf : WF F) (r0 : Reader) (h0 : Reader.new F = .ok r0)
+    (ops : List Op) (hv : ValidOps (layoutOf F) ops) :
+    (r0.run ops).map Reader.observe = (run (flatOf F) init ops).map observeFlat :=
+  run_refines hwf ops r0 init (sim_new h0) hv
+
+/-- The only error a valid history ever sees is `io.EOF`: the model's fuel bounds are never hit, nothing
+panics, no seek fails. -/
+theorem errors_are_eof_only (F : File) (hwf : WF F) (r0 : Reader) (h0 : Reader.new F = .ok r0)
+    (ops : List Op) (hv : ValidOps (layoutOf F) ops) :
+    ∀ p ∈ r0.run ops, p.1.err = none ∨ p.1.err = some .eof := by
+  intro p hp
+  have h := read_refines_flat F hwf r0 h0 ops hv
+  have hm : Reader.observe p ∈ (r0.run ops).map Reader.observe := List.mem_map_of_mem hp
+  rw [h] at hm
+  obtain ⟨o, _, ho⟩ := List.mem_map.mp hm
+  have : p.1.err = errOf o.eof := by
+    have := congrArg (fun x => x.2.1) ho
+    simpa [Reader.observe, observeFlat] using this.symm
+  rw [this]; cases o.eof <;> simp [errOf]
+
+/-- In the flat specification a read returns bytes of the flat copy starting at the logical position. -/
+theorem flat_read_exact (F : FlatFile) (s : State) (n : Nat) :
+    ∃ m, m ≤ n ∧ (Hts.Spec.Flat.read F s n).bytes = (F.bytes.drop s.pos).take m :=
+  read_bytes_flat F s n
+
+/-- … it is short or empty only together with `io.EOF` … -/
+theorem flat_short_only_with_eof {F : FlatFile} (hF : F.WF) (s : State) (n : Nat)
+    (h : (Hts.Spec.Flat.read F s n).bytes.length < n) : (Hts.Spec.Flat.read F s n).eof = true :=
+  read_short_eof hF s n h
+
+/-- … and `io.EOF` is reported exactly at the end of the data or when more was requested than the data
+(Blocked: the block that holds the position) still holds. -/
+theorem flat_eof_iff (F : FlatFile) (s : State) (n : Nat) :
+    (Hts.Spec.Flat.read F s n).eof = true ↔
+      total F.layout ≤ s.pos ∨
+      (if s.blocked then blockRem F.layout s.pos else total F.layout - s.pos) < n :=
+  read_eof_iff F s n
+
+/-- After each successful read `Begin` and `End` translate to the logical positions just before and just
+after the bytes returned; `Begin` is a seek target. -/
+theorem lastchunk_translates {F : FlatFile} (hF : F.WF) (s : State) (n : Nat)
+    (hok : (Hts.Spec.Flat.read F s n).eof = false ∨ (Hts.Spec.Flat.read F s n).bytes ≠ []) :
+    seekTarget F.layout (Hts.Spec.Flat.read F s n).st.last.bgn = some s.pos ∧
+    toLogical F.layout (Hts.Spec.Flat.read F s n).st.last.fin =
+      some (s.pos + (Hts.Spec.Flat.read F s n).bytes.length) ∧
+    (Hts.Spec.Flat.read F s n).st.pos = s.pos + (Hts.Spec.Flat.read F s n).bytes.length :=
+  read_chunk_translates hF s n hok
+
+/-- **Replay.** After any valid history, if a `Read(n)` succeeds (no error, or some bytes), then seeking to
+the reported `Begin` succeeds and the same `Read(n)` returns the same bytes, the same error and the same
+chunk again. -/
+theorem seek_begin_replays (F : File) (hwf : WF F) (r0 : Reader) (h0 : Reader.new F = .ok r0)
+    (ops : List Op) (hv : ValidOps (layoutOf F) ops) (n : Nat)
+    (hok : ((r0.after ops).read n).2.2 = none ∨ ((r0.after ops).read n).2.1 ≠ []) :
+    (((r0.after ops).read n).1.seek ((r0.after ops).read n).1.lastChunk.bgn).2 = none ∧
+    ((((r0.after ops).read n).1.seek ((r0.after ops).read n).1.lastChunk.bgn).1.read n).2 =
+      ((r0.after ops).read n).2 ∧
+    ((((r0.after ops).read n).1.seek ((r0.after ops).read n).1.lastChunk.bgn).1.read n).1.lastChunk =
+      ((r0.after ops).read n).1.lastChunk := by
+  have hsim := sim_after hwf ops r0 init (sim_new h0) hv
+  generalize r0.after ops = r at *
+  generalize stateAfter (flatOf F) init ops = s at *
+  have ⟨hb, he, hs1⟩ := sim_read hwf hsim n
+  have hok' : (Hts.Spec.Flat.read (flatOf F) s n).eof = false ∨ (Hts.Spec.Flat.read (flatOf F) s n).bytes ≠ [] := by
+    rcases hok with h | h
+    · left; rw [he] at h; cases hq : (Hts.Spec.Flat.read (flatOf F) s n).eof <;> simp_all [errOf]
+    · right; rwa [← hb]
+  have ⟨ht, _, _⟩ := read_chunk_translates (flatOf_wf hwf) s n hok'
+  have hlt : s.pos < total (flatOf F).layout := by
+    by_cases hp : total (flatOf F).layout ≤ s.pos
+    · simp [Hts.Spec.Flat.read, hp] at hok'
+    · omega
+  rw [hs1.last]
+  have ⟨hk1, hk2⟩ := sim_seek hwf hs1 _ _ ht
+  have ⟨hb2, he2, hs2⟩ := sim_read hwf hk2 n
+  have hcongr := flat_read_congr (flatOf F)
+    (State.mk s.pos (Hts.Spec.Flat.read (flatOf F) s n).st.blocked
+      ⟨(Hts.Spec.Flat.read (flatOf F) s n).st.last.bgn, (Hts.Spec.Flat.read (flatOf F) s n).st.last.bgn⟩)
+    s n rfl (flat_read_blocked (flatOf F) s n) hlt
+  rw [hcongr] at hb2 he2 hs2
+  refine ⟨hk1, ?_, ?_⟩
+  · apply Prod.ext
+    · rw [hb2, hb]
+    · rw [he2, he]
+  · rw [hs2.last]
+
+/-! ### The read-ahead protocol (rd > 1), partial
+
+`Hts.Model.ReadAhead` is the worker/consumer protocol of the cache-free reader as a transition system.  The
+full statements (all paths, including `Seek`'s redirects through `control`) are kept visible below as
+propositions; what is proved is the part for paths without `Seek` steps ("between redirects"): the consumer
+never sees an unexpected block, blocks are delivered in file order, decompressors are conserved, and a
+consumer waiting in `nextBlock` never dead-locks.  For the rest the schedule clause of C02 is carried by
+the correspondence check (rd 0/2/4, GOMAXPROCS 1/4/16, delayed underlying reader). -/
+
+open Hts.Model.ReadAhead in
+/-- Full statement (not proved): the `panic("bgzf: unexpected block")` branch is unreachable on every path. -/
+def readahead_no_unexpected_block_full : Prop :=
+  ∀ (chain : Chain) (rd : Nat), 2 ≤ rd → ∀ s, Reach chain rd (fun _ => true) s → s.cons ≠ .panicked
+
+open Hts.Model.ReadAhead in
+/-- Full statement (not proved): on every path, whenever the consumer is inside a call some thread can move. -/
+def readahead_deadlock_free_full : Prop :=
+  ∀ (chain : Chain) (rd : Nat), 2 ≤ rd → ∀ s, Reach chain rd (fun _ => true) s → s.cons ≠ .idle →
+    s.cons ≠ .panicked → ∃ l t, Step chain s l t
+
+open Hts.Model.ReadAhead in
+/-- Between redirects the consumer never reaches `panic("bgzf: unexpected block")`, for every file, every
+number of decompressors and every interleaving of worker and consumer. -/
+theorem readahead_no_unexpected_block_partial (chain : Chain) (rd : Nat) (s : St)
+    (h : Reach chain rd noSeek s) : s.cons ≠ .panicked := by
+  have hi := inv_reach h
+  rcases hi.cons with hc | ⟨i, hc, _, _⟩ <;> rw [hc] <;> simp
+
+open Hts.Model.ReadAhead in
+/-- Between redirects every block the consumer receives from `working` is the member of the file that
+starts at the base it expects (in-order delivery; no block is skipped, repeated or out of place). -/
+theorem readahead_in_order_partial (chain : Chain) (rd : Nat) (s t : St) (h : Reach chain rd noSeek s)
+    (hs : Step chain s .cRecv t) :
+    ∃ b rest, s.working = b :: rest ∧ s.cur.next = some b.base ∧ b.next = chain b.base ∧
+      t.cur = b ∧ t.cons = .idle ∧ t.working = rest := by
+  have hi := inv_reach h
+  cases hs with
+  | cRecv i b rest h1 h2 h3 =>
+    have hb : s.cur.next = some b.base ∧ b.next = chain b.base ∧
+        IsChain chain b.next (rest ++ s.worker.pending) (wnext s) := by
+      simpa [pipeline, h2, IsChain] using hi.chain_
+    refine ⟨b, rest, h2, hb.1, hb.2.1, ?_⟩
+    simp [hb.1]
+
+open Hts.Model.ReadAhead in
+/-- Decompressors are conserved: idle + carrying a block + held by a thread = rd. -/
+theorem readahead_conservation_partial (chain : Chain) (rd : Nat) (s : St) (h : Reach chain rd noSeek s) :
+    s.waiting + s.working.length + held s = rd ∧ s.working.length ≤ rd :=
+  ⟨(inv_reach h).count, by have := (inv_reach h).count; omega⟩
+
+open Hts.Model.ReadAhead in
+/-- Between redirects a consumer waiting in `nextBlock` is never stuck: the block it waits for is in
+`working`, or the worker can take a decompressor, read, or send. -/
+theorem readahead_deadlock_free_partial (chain : Chain) (rd : Nat) (hrd : 1 ≤ rd) (s : St)
+    (h : Reach chain rd noSeek s) (i : Nat) (hc : s.cons = .scan i) :
+    ∃ l t, noSeek l = true ∧ Step chain s l t :=
+  scan_can_step hrd (inv_reach h) i hc
+
+open Hts.Model.ReadAhead in
+/-- Non-vacuity: a three-member file, rd = 2; the worker reads ahead and the consumer receives the block. -/
+example : ∃ s, Reach (fun b => if b < 90 then some (b + 30) else none) 2 noSeek s ∧
+    s.cur = ⟨30, some 60⟩ ∧ s.cons = .idle := by
+  let chain : Chain := fun b => if b < 90 then some (b + 30) else none
+  have r0 : Reach chain 2 noSeek (init chain 2) := .init
+  have r1 := Reach.step _ _ _ r0 (rfl : noSeek .wTake = true) (Step.wTake _ _ rfl (by decide))
+  have r2 := Reach.step _ _ _ r1 (rfl : noSeek .wRead = true) (Step.wRead _ 30 rfl rfl)
+  have r3 := Reach.step _ _ _ r2 (rfl : noSeek .wPush = true) (Step.wPush _ _ rfl (by decide))
+  have r4 := Reach.step _ _ _ r3 (rfl : noSeek .cNext = true) (Step.cNext _ 30 rfl rfl)
+  have r5 := Reach.step _ _ _ r4 (rfl : noSeek .cRecv = true) (Step.cRecv _ 0 ⟨30, some 60⟩ [] rfl rfl (by decide))
+  exact ⟨_, r5, rfl, rfl⟩
+
+/-! ### Non-vacuity: the hypotheses are satisfiable by a file with empty members in the middle and at the
+end and by a history that seeks, crosses block ends, hits the end of the data and toggles Blocked mode. -/
+
+def exOps : List Op :=
+  [.read 2, .read 5, .read 1, .seek ⟨30, 0⟩, .read 1, .setBlocked true, .seek ⟨0, 1⟩, .read 9, .read 9, .readByte]
+
+example : WF exFile := exFile_wf
+
+example : ValidOps (layoutOf exFile) exOps := by
+  simp [ValidOps, exOps, layoutOf, exFile, seekTarget]
+
+example : ∃ r0, Reader.new exFile = .ok r0 ∧
+    (r0.run exOps).map (fun p => (p.1.bytes, p.1.err)) =
+      [([1, 2], none), ([3, 4, 5], some .eof), ([], some .eof), ([], none), ([4], none), ([], none),
+       ([], none), ([2, 3], some .eof), ([4, 5], some .eof), ([0], some .eof)] :=
+  ⟨_, rfl, by decide⟩
+
+example : (flatOf exFile).WF := flatOf_wf exFile_wf
+
 end Hts.Props.C02
